@@ -19,7 +19,7 @@ def gen_cases(rng, tier):
     rng.next()
     rng.next()
     cases = B.gen_ops_cases(rng, tier, 1200, 12000, steps=(4, 30))
-    fam = U.family()
+    fam = U.family_ops()
     # allowance boundaries from an empty value: grow to cap-1, cap, cap+1 in one and in several steps
     for idx, desc, ty in fam:
         if ty[0] == "L" and ty[2] >= 2:
